@@ -2,6 +2,7 @@
 // verdict (race / no race / deadlock / wrong value possible), run under the simulator.
 #include <atomic>
 #include <condition_variable>
+#include <future>
 #include <latch>
 #include <memory>
 #include <mutex>
@@ -273,6 +274,90 @@ void s_tagged_cas(int) {
   }
 }
 
+// 23: a task spawns a std::thread, the child works under the mutex, the parent joins -> no race
+void s_spawn_join(int t) {
+  if (t == 0) {
+    std::thread child([] {
+      std::lock_guard<std::mutex> l(mtx);
+      plain_counter += 10;
+    });
+    {
+      std::lock_guard<std::mutex> l(mtx);
+      plain_counter += 1;
+    }
+    child.join();
+    std::lock_guard<std::mutex> l(mtx);
+    observed[0] = plain_counter >= 11 ? 1 : 0;  // after the join the child's update is visible
+  } else {
+    std::lock_guard<std::mutex> l(mtx);
+    plain_counter += 1;
+  }
+}
+// 24: the child writes a plain variable that the parent reads BEFORE joining -> race
+void s_spawn_race(int t) {
+  if (t == 0) {
+    std::thread child([] { payload = 5; });
+    observed[0] = payload;
+    child.join();
+  }
+}
+// 25: std::async + future.get() -> no race, value transferred
+void s_async(int t) {
+  auto f = std::async(std::launch::async, [t] { return 100 + t; });
+  observed[t] = f.get();
+}
+
+// 26: far more threads over the run than there are thread slots, one after the other; their shared
+// states (once-flags, futex words) come back at recycled addresses
+void s_async_many(int t) {
+  long sum = 0;
+  for (int i = 0; i < 60; ++i) {
+    auto f = std::async(std::launch::async, [t, i] { return t + i; });
+    sum += f.get();
+  }
+  observed[t] = sum;  // 60 t + 1770
+}
+// 27: detached threads publish through an atomic counter; the creator waits for it
+static std::atomic<int> detached_done{0};
+void s_detach(int t) {
+  if (t == 0) {
+    for (int i = 0; i < 3; ++i) {
+      std::thread([] {
+        payload = 7;  // all three write the same plain variable without synchronisation -> race
+        detached_done.fetch_add(1, std::memory_order_release);
+      }).detach();
+    }
+    while (detached_done.load(std::memory_order_acquire) < 3) std::this_thread::yield();
+    observed[0] = payload;
+  }
+}
+
+// 28: a worker thread started on first use serves jobs from a queue and is never joined: when the
+// callers have finished it is left waiting on its condition variable -> complete, not deadlocked
+static std::once_flag pool_once;
+static std::mutex pool_m;
+static std::condition_variable pool_cv, pool_done_cv;
+static int pool_jobs[8], pool_njobs = 0, pool_results[8], pool_ready[8];
+void s_daemon(int t) {
+  std::call_once(pool_once, [] {
+    std::thread([] {
+      std::unique_lock<std::mutex> l(pool_m);
+      for (;;) {
+        pool_cv.wait(l, [] { return pool_njobs > 0; });
+        int who = pool_jobs[--pool_njobs];
+        pool_results[who] = 1000 + who;
+        pool_ready[who] = 1;
+        pool_done_cv.notify_all();
+      }
+    }).detach();
+  });
+  std::unique_lock<std::mutex> l(pool_m);
+  pool_jobs[pool_njobs++] = t;
+  pool_cv.notify_one();
+  pool_done_cv.wait(l, [t] { return pool_ready[t] != 0; });
+  observed[t] = pool_results[t];
+}
+
 static const Scenario kScenarios[] = {
   {"plain_race", s_plain_race},       {"mutex", s_mutex},         {"atomic", s_atomic},
   {"publish_ok", s_publish_ok},       {"publish_relaxed", s_publish_relaxed},
@@ -283,7 +368,10 @@ static const Scenario kScenarios[] = {
   {"atomic_wait", s_atomic_wait},     {"scoped_lock", s_scoped_lock},
   {"atomic_shared_ptr", s_atomic_shared_ptr}, {"cond_wait_for", s_cond_wait_for},
   {"fence_publish", s_fence_publish}, {"fence_missing", s_fence_missing},
-  {"tagged_cas", s_tagged_cas},
+  {"tagged_cas", s_tagged_cas},      {"spawn_join", s_spawn_join},
+  {"spawn_race", s_spawn_race},       {"async", s_async},
+  {"async_many", s_async_many},       {"detach", s_detach},
+  {"daemon", s_daemon},
 };
 const Scenario* scenarios() { return kScenarios; }
 int n_scenarios() { return (int)(sizeof kScenarios / sizeof kScenarios[0]); }
